@@ -507,6 +507,7 @@ fn module_expression(input: SliceIter<Token>) -> Result<SliceIter<Token>, Expres
 }
 
 fn func_expression(input: SliceIter<Token>) -> Result<SliceIter<Token>, Expression> {
+    let start = input.clone();
     let parsed = do_each!(input,
         pos => pos,
         _ => word!("func"),
@@ -517,6 +518,16 @@ fn func_expression(input: SliceIter<Token>) -> Result<SliceIter<Token>, Expressi
         map =>  trace_parse!(expression),
         (pos, arglist, map)
     );
+    if let Result::Complete(_, (_, Some(ref args), _)) = parsed {
+        for (i, (name, _)) in args.iter().enumerate() {
+            if args[..i].iter().any(|(n, _)| n.to_string() == name.to_string()) {
+                return Result::Abort(Error::new(
+                    format!("Duplicate argument name {}", name),
+                    Box::new(start),
+                ));
+            }
+        }
+    }
     match parsed {
         Result::Abort(e) => Result::Abort(e),
         Result::Fail(e) => Result::Fail(e),
